@@ -1,8 +1,9 @@
 import Lean.Data.Json
 import PynguinModel.Model.ExportImports
+import PynguinModel.Model.SeedPatch
 /-! Line-protocol driver for C18: one JSON suite per line in, one JSON description of the emitted file
 (as the model predicts it) per line out. -/
-open Lean PynguinModel.ExportImports
+open Lean PynguinModel.ExportImports PynguinModel.SeedPatch
 
 deriving instance FromJson for Obj
 deriving instance FromJson for Cls
@@ -10,6 +11,20 @@ deriving instance FromJson for AKind
 deriving instance FromJson for Assertion
 deriving instance FromJson for Stmt
 deriving instance FromJson for Suite
+deriving instance FromJson for Val
+deriving instance FromJson for SeedArg
+
+def effJ : Eff → Json
+  | .val v => Json.mkObj [("val", v.repr)]
+  | .tyName s => Json.mkObj [("ty", s)]
+
+/-- What the emitted `_pynguin_deterministic_seed` and the generation-time patch hand the original `seed`
+for every probe argument (only when the file has a seed preamble). -/
+def seedJ (s : Suite) (probes : List SeedArg) : Json :=
+  match s.seed with
+  | none => Json.null
+  | some n => Json.mkObj [("export", Json.arr (probes.map (fun x => effJ (exportSeed n x))).toArray),
+                          ("gen", Json.arr (probes.map (fun x => effJ (genSeed n x))).toArray)]
 
 def kindStr : AKind → String
   | .float => "float" | .object => "object" | .typeName => "typeName"
@@ -27,7 +42,7 @@ def itemJ : Item → Json
 def outcomeStr : Outcome → String
   | .passed => "passed" | .failed => "failed" | .xfailed => "xfailed" | .xpassStrictFailed => "failed"
 
-def runCase (s : Suite) : Json :=
+def runCase (s : Suite) (probes : List SeedArg) : Json :=
   let env := moduleEnv s
   let excTops := excImportTops s.sutName (allUsedExc s)
   let report := runFile s (fun st => st.exc) (fun _ => true)
@@ -43,6 +58,7 @@ def runCase (s : Suite) : Json :=
     -- emitted file's module-level names resolve the class name to that class (theorem `raises_class_imported`)
     ("raises_classes", toJson ((fns s).map (fun f => (usedExc f).map (fun c =>
         Json.arr #[c.name, c.module, toJson (refOk env (c.name, clsObj s.sutName c.module c.name))])))),
+    ("seed_eff", seedJ s probes),
     ("report", match report with
       | some l => toJson (l.map outcomeStr)
       | none => Json.null) ]
@@ -50,8 +66,15 @@ def runCase (s : Suite) : Json :=
 partial def loop (h : IO.FS.Stream) : IO Unit := do
   let line ← h.getLine
   if line.isEmpty then return ()
-  let out := match Json.parse line >>= fromJson? (α := Suite) with
-    | .ok c => (runCase c).compress
+  let parsed : Except String (Suite × List SeedArg) := do
+    let j ← Json.parse line
+    let c ← fromJson? (α := Suite) j
+    let probes ← match j.getObjVal? "seedProbes" with
+      | .ok pj => fromJson? (α := List SeedArg) pj
+      | .error _ => pure []
+    pure (c, probes)
+  let out := match parsed with
+    | .ok (c, probes) => (runCase c probes).compress
     | .error e => (Json.mkObj [("bad-op", e)]).compress
   IO.println out
   loop h
